@@ -3,6 +3,7 @@ use crate::report::Tier;
 pub mod c02;
 pub mod c03;
 pub mod c04;
+pub mod c05;
 pub mod c08;
 pub mod c09;
 pub mod c14;
@@ -12,6 +13,8 @@ pub fn dispatch(prop: &str, tier: Tier, replay: Option<String>) -> i32 {
         "C02" => c02::run(tier, replay),
         "C03" => c03::run(tier, replay),
         "C04" => c04::run(tier, replay),
+        "C05" => c05::run("C05", tier, replay),
+        "C16" => c05::run("C16", tier, replay),
         "C08" => c08::run(tier, replay),
         "C09" => c09::run(tier, replay),
         "C14" => c14::run(tier, replay),
